@@ -8,6 +8,7 @@ import (
 	"hash"
 	"html/template"
 	"net/url"
+	"sync"
 	"time"
 
 	"github.com/hashicorp/go-retryablehttp"
@@ -282,9 +283,12 @@ func (c *Config) GetHTTPClient(ctx context.Context) *retryablehttp.Client {
 	return c.HTTPClient
 }
 
+var defaultJWKSFetcherStrategyLock sync.Mutex
+
 func (c *Config) GetSecretsHasher(ctx context.Context) Hasher {
 	if c.ClientSecretsHasher == nil {
-		c.ClientSecretsHasher = &BCrypt{Config: c}
+		// Do not store the default: the configuration is shared by concurrent requests.
+		return &BCrypt{Config: c}
 	}
 	return c.ClientSecretsHasher
 }
@@ -368,7 +372,8 @@ func (c *Config) GetAllowedPrompts(_ context.Context) []string {
 // GetScopeStrategy returns the scope strategy to be used. Defaults to glob scope strategy.
 func (c *Config) GetScopeStrategy(_ context.Context) ScopeStrategy {
 	if c.ScopeStrategy == nil {
-		c.ScopeStrategy = WildcardScopeStrategy
+		// Do not store the default: the configuration is shared by concurrent requests.
+		return WildcardScopeStrategy
 	}
 	return c.ScopeStrategy
 }
@@ -376,7 +381,8 @@ func (c *Config) GetScopeStrategy(_ context.Context) ScopeStrategy {
 // GetAudienceStrategy returns the scope strategy to be used. Defaults to glob scope strategy.
 func (c *Config) GetAudienceStrategy(_ context.Context) AudienceMatchingStrategy {
 	if c.AudienceMatchingStrategy == nil {
-		c.AudienceMatchingStrategy = DefaultAudienceMatchingStrategy
+		// Do not store the default: the configuration is shared by concurrent requests.
+		return DefaultAudienceMatchingStrategy
 	}
 	return c.AudienceMatchingStrategy
 }
@@ -441,6 +447,10 @@ func (c *Config) GetBCryptCost(_ context.Context) int {
 
 // GetJWKSFetcherStrategy returns the JWKSFetcherStrategy.
 func (c *Config) GetJWKSFetcherStrategy(_ context.Context) JWKSFetcherStrategy {
+	// The default strategy carries a cache, so it is created once and kept; the lock makes that
+	// safe when the first requests arrive concurrently.
+	defaultJWKSFetcherStrategyLock.Lock()
+	defer defaultJWKSFetcherStrategyLock.Unlock()
 	if c.JWKSFetcherStrategy == nil {
 		c.JWKSFetcherStrategy = NewDefaultJWKSFetcherStrategy()
 	}
